@@ -51,7 +51,8 @@ CORR = {"delivered_below_minimum": corrupt_short, "failed_route_left_funds": cor
 
 
 def run_shard(acc, prop, tier, seed, shard, nshards, **kw):
-    _w.shard(acc, PROP, tier, seed, shard, nshards, factory, WEIGHTS, (12, (140, 220)), (300, (140, 300)), CORR)
+    _w.shard(acc, PROP, tier, seed, shard, nshards, factory, WEIGHTS, (12, (140, 220)), (300, (140, 300)), CORR,
+             world_kw={"whale": True})
 
 
 def floors(acc, tier):
